@@ -287,3 +287,27 @@ Theorem source_interchangeable_all_styles : forall n name args s,
   nquery n w_python_styles name args s = nquery n (w_compiled irf dynl) name args s.
 Proof. apply world_equiv_nquery. exact source_styles_equiv. Qed.
 End SourceStyles.
+
+(* ------------------------------------------------------------------ ... and the clause-level semantics of the whole program *)
+
+Lemma mk_world_plain ir : world_equiv (mk_world ir [] [] []) (plain ir).
+Proof. intros call name args s. reflexivity. Qed.
+
+(* rules compiled alone + Python predicates for the fact predicates of specs compute, for every query, exactly the
+   clause-level reference semantics (Sem/ClauseSem.solveA: clauses in source order, head unification, RefSem control) of the
+   WHOLE Prolog program rules ++ facts - the semantics that C01 proves for compiled programs *)
+Theorem python_predicates_compute_clause_semantics rules specs ir irf :
+  compile_program rules = Some ir -> compile_program (rules ++ py_clauses specs) = Some irf ->
+  good_program rules -> Forall spec_ok specs -> NoDup (map fst specs) ->
+  (forall c, In c rules -> lookup_fix specs (c_name c) (length (c_args c)) = None) ->
+  (forall f, In f irf -> Resolve.reserved (fn_name f) = false) ->
+  forall n name args s,
+    nquery n (mk_world ir (py_table specs) [] []) name args s = solveA n (rules ++ py_clauses specs) name args s.
+Proof.
+  intros Hr HP Gr Ok ND Dis NR n name args s.
+  rewrite (program_with_python_predicates rules specs [] ir irf Hr HP Gr Ok ND Dis n name args s).
+  rewrite (world_equiv_nquery _ _ (mk_world_plain irf) n name args s).
+  rewrite (plain_is_machine irf NR n name args s).
+  apply machine_computes_clause_semantics; [exact HP|].
+  apply Forall_app. split; [exact Gr | apply py_clauses_good].
+Qed.
